@@ -233,6 +233,19 @@ def lib_channel(channel, text, rid, knobs=None, seed=0):
         return _outcome(lambda: mistletoe.markdown(text.splitlines(keepends=True), R))
     if channel == 'lines_noends':
         return _outcome(lambda: mistletoe.markdown(text.split('\n')[:-1] if text.endswith('\n') else text.split('\n') if text else [], R))
+    if channel in ('lines_mixed_head_bare', 'lines_mixed_alternating', 'lines_mixed_tail_bare'):
+        # a list whose elements are not uniformly terminated (bare header lines put in front of f.readlines(), ...)
+        lines = text.splitlines(keepends=True)
+        rng = random.Random(seed)
+        if channel == 'lines_mixed_head_bare':
+            k = rng.randint(1, max(1, len(lines) - 1))
+            lines = [l.rstrip('\n') if i < k else l for i, l in enumerate(lines)]
+        elif channel == 'lines_mixed_tail_bare':
+            k = rng.randint(0, max(0, len(lines) - 1))
+            lines = [l.rstrip('\n') if i >= k else l for i, l in enumerate(lines)]
+        else:
+            lines = [l.rstrip('\n') if i % 2 == 0 and i != len(lines) - 1 else l for i, l in enumerate(lines)]
+        return _outcome(lambda: mistletoe.markdown(lines, R))
     if channel == 'lines_tuple':
         return _outcome(lambda: mistletoe.markdown(tuple(text.splitlines(keepends=True)), R))
     if channel == 'lines_generator':
@@ -258,7 +271,8 @@ def lib_channel(channel, text, rid, knobs=None, seed=0):
     raise core.HarnessError('unknown channel %r' % channel)
 
 
-LIB_CHANNELS = ['lines_keepends', 'lines_noends', 'lines_tuple', 'lines_generator', 'stringio', 'realfile', 'simfile']
+LIB_CHANNELS = ['lines_keepends', 'lines_noends', 'lines_mixed_head_bare', 'lines_mixed_alternating', 'lines_mixed_tail_bare',
+                'lines_tuple', 'lines_generator', 'stringio', 'realfile', 'simfile']
 
 
 ARGV_SHAPES = ['-r X files', '--renderer X files', '--renderer=X files', 'files -r X', '--rend X files', '-rX files']
